@@ -31,6 +31,7 @@ type c19aScenario struct {
 	Policy   int      `json:"policy"`
 	ExecSeed uint64   `json:"exec_seed"`
 	NilMap   bool     `json:"nil_services_map,omitempty"`
+	HoldAll  bool     `json:"hold_all,omitempty"` // no callback returns before all N have been entered (any completion order must be possible)
 }
 
 func (sc *c19aScenario) project() *types.Project {
@@ -74,6 +75,12 @@ func schedLoop(s *zsimrt.Sched, budget int, payloadFor func(*zsimrt.Parked) any,
 		}
 		if s.Steps > budget {
 			return false, true
+		}
+		if s.Hold != nil {
+			ps = s.Hold(ps)
+			if len(ps) == 0 {
+				return true, false
+			}
 		}
 		p := s.Pick(ps)
 		var payload any
@@ -162,6 +169,23 @@ func runFanout(t *testing.T, sc *c19aScenario, record bool) *c19aOutcome {
 			mu.Unlock()
 			s.MarkDone()
 		}()
+		if sc.HoldAll {
+			s.Hold = func(ps []*zsimrt.Parked) []*zsimrt.Parked {
+				mu.Lock()
+				n := len(entered)
+				mu.Unlock()
+				if n >= sc.N || len(sc.Fail) > 0 {
+					return ps
+				}
+				var rest []*zsimrt.Parked
+				for _, p := range ps {
+					if p.Kind != "callback" {
+						rest = append(rest, p)
+					}
+				}
+				return rest // may be empty: then nothing but held callbacks is left, although some were never started
+			}
+		}
 		dead, live := schedLoop(s, 200*(sc.N+2), func(p *zsimrt.Parked) any {
 			name := p.Info.(string)
 			if fails[name] {
@@ -172,6 +196,10 @@ func runFanout(t *testing.T, sc *c19aScenario, record bool) *c19aOutcome {
 		out.Steps, out.MaxPar, out.Trace = s.Steps, s.MaxPar, s.Trace
 		mu.Lock()
 		defer mu.Unlock()
+		if dead && sc.HoldAll && len(entered) < sc.N {
+			problem("callbacks-cannot-all-be-in-flight", fmt.Sprintf("%d of %d per-service calls were started, the others only start once one of these returns: a completion order in which a later call finishes first cannot happen (hidden concurrency bound); events: %s", len(entered), sc.N, strings.Join(events, " ")))
+			return
+		}
 		if dead {
 			problem("deadlock", "no task runnable, nothing pending, call has not returned; events: "+strings.Join(events, " "))
 			return
@@ -280,6 +308,7 @@ func c19aRun(c *Ctx, r *zsimrt.Run) {
 		}
 	}
 	sc.Strategy = r.Draw("strategy", 3)
+	sc.HoldAll = len(sc.Fail) == 0 && r.Chance("hold-all", 1, 3)
 	sc.ExecSeed = uint64(r.Draw("exec-seed", 1<<30)) + 1
 	c19aExec(c, sc)
 }
